@@ -452,6 +452,9 @@ def run(chk):
     # through wrappers and the type-erased bridge the global runtime uses (shared with C03)
     c03.open_disabled_rule(chk, P, "C04")
     c03.ctxt_forwarding(chk, P, "C04", 28)
+    c03.option_ctxt_rules(chk, P, "C04")
+    from . import witness
+    witness.witness_rule(chk, "C04", 2)
 
     def who_may():
         bad = []
